@@ -98,6 +98,15 @@ func Conforming(t *rapid.T, cfg Cfg) M {
 		// document validator does not compile it there, and traffic must get an error, every time
 		b.comps["schemas"]["Lookahead"] = M{"pattern": "^(?!x)[a-z]+$"}
 	}
+	if cfg.Unusual && b.chance(3, "widemapping") {
+		// a discriminator mapping copied from a wider base type: some keys name schemas that are not
+		// among the oneOf members (one of them by bare name), and the members admit those key values
+		b.comps["schemas"]["PetA"] = M{"type": "object", "required": []any{"k"}, "properties": M{"k": M{"type": "string", "enum": []any{"a", "c", "d", "zz"}}, "n": M{"type": "integer"}}}
+		b.comps["schemas"]["PetB"] = M{"type": "object", "required": []any{"k"}, "properties": M{"k": M{"type": "string", "enum": []any{"b"}}}}
+		b.comps["schemas"]["PetC"] = M{"type": "object", "properties": M{"k": M{"type": "string"}}}
+		b.comps["schemas"]["PetU"] = M{"oneOf": []any{ref("schemas", "PetA"), ref("schemas", "PetB")},
+			"discriminator": M{"propertyName": "k", "mapping": M{"a": "#/components/schemas/PetA", "b": "#/components/schemas/PetB", "c": "#/components/schemas/PetC", "d": "PetC"}}}
+	}
 	if cfg.Unusual && b.chance(2, "recursive") {
 		b.comps["schemas"]["Rec"] = M{"type": "object", "properties": M{"next": ref("schemas", "Rec"), "v": M{"type": "integer"}, "list": M{"type": "array", "items": ref("schemas", "Rec")}}}
 	}
